@@ -35,47 +35,47 @@ SCHEMA = {
         'args_list': 'list[ref:Argument]', 'parent': 'any', 'backup': 'ref:ArgumentList',
     },
     'ReturnType': {
-        'type1': TYPE_ANY, 'type2': 'str|ref:Type', 'parent': 'any',
+        'type1': TYPE_ANY, 'type2': 'estr|ref:Type', 'parent': 'any',
     },
     'Template': {
         'typenames': 'list[str]', 'instantiations': 'list[list[ref:Typename]]',
     },
     'Method': {
         'template': 'none|str|ref:Template', 'name': 'nestr', 'return_type': 'ref:ReturnType',
-        'args': 'ref:ArgumentList', 'is_const': 'str', 'parent': 'str|ref:Class',
+        'args': 'ref:ArgumentList', 'is_const': 'str', 'parent': 'estr|ref:Class',
     },
     'StaticMethod': {
         'template': 'none|str|ref:Template', 'name': 'nestr', 'return_type': 'ref:ReturnType',
-        'args': 'ref:ArgumentList', 'parent': 'str|ref:Class',
+        'args': 'ref:ArgumentList', 'parent': 'estr|ref:Class',
     },
     'Constructor': {
-        'template': 'none|str|ref:Template', 'name': 'nestr', 'args': 'ref:ArgumentList', 'parent': 'str|ref:Class',
+        'template': 'none|str|ref:Template', 'name': 'nestr', 'args': 'ref:ArgumentList', 'parent': 'estr|ref:Class',
     },
     'Operator': {
         'name': 'nestr', 'operator': 'str', 'return_type': 'ref:ReturnType', 'args': 'ref:ArgumentList',
-        'is_const': 'str', 'is_unary': 'bool', 'parent': 'str|ref:Class',
+        'is_const': 'str', 'is_unary': 'bool', 'parent': 'estr|ref:Class',
     },
-    'DunderMethod': {'name': 'nestr', 'args': 'ref:ArgumentList', 'parent': 'str|ref:Class'},
-    'Variable': {'ctype': TYPE_ANY, 'name': 'nestr', 'default': 'none|str', 'parent': 'str|ref:Class|ref:Namespace'},
+    'DunderMethod': {'name': 'nestr', 'args': 'ref:ArgumentList', 'parent': 'estr|ref:Class'},
+    'Variable': {'ctype': TYPE_ANY, 'name': 'nestr', 'default': 'none|str', 'parent': 'estr|ref:Class|ref:Namespace'},
     'Enumerator': {'name': 'nestr'},
-    'Enum': {'name': 'nestr', 'enumerators': 'list[ref:Enumerator]', 'parent': 'str|ref:Class|ref:Namespace'},
-    'Include': {'header': 'str', 'parent': 'str|ref:Namespace'},
-    'ForwardDeclaration': {'name': 'nestr', 'typename': 'ref:Typename', 'parent_type': 'str|ref:Typename',
-                           'is_virtual': 'str', 'parent': 'str|ref:Namespace'},
-    'TypedefTemplateInstantiation': {'typename': 'ref:Typename', 'new_name': 'str', 'parent': 'str|ref:Namespace'},
+    'Enum': {'name': 'nestr', 'enumerators': 'list[ref:Enumerator]', 'parent': 'estr|ref:Class|ref:Namespace'},
+    'Include': {'header': 'str', 'parent': 'estr|ref:Namespace'},
+    'ForwardDeclaration': {'name': 'nestr', 'typename': 'ref:Typename', 'parent_type': 'estr|ref:Typename',
+                           'is_virtual': 'str', 'parent': 'estr|ref:Namespace'},
+    'TypedefTemplateInstantiation': {'typename': 'ref:Typename', 'new_name': 'str', 'parent': 'estr|ref:Namespace'},
     'GlobalFunction': {
         'name': 'nestr', 'return_type': 'ref:ReturnType', 'args': 'ref:ArgumentList',
-        'template': 'none|str|ref:Template', 'parent': 'str|ref:Namespace',
+        'template': 'none|str|ref:Template', 'parent': 'estr|ref:Namespace',
     },
     'Class': {
         'template': 'none|str|ref:Template', 'is_virtual': 'str', 'name': 'nestr',
-        'parent_class': 'str|ref:Typename|ref:TemplatedType',
+        'parent_class': 'estr|ref:Typename|ref:TemplatedType',
         'ctors': 'list[ref:Constructor]', 'methods': 'list[ref:Method]',
         'static_methods': 'list[ref:StaticMethod]', 'dunder_methods': 'list[ref:DunderMethod]',
         'properties': 'list[ref:Variable]', 'operators': 'list[ref:Operator]', 'enums': 'list[ref:Enum]',
-        'parent': 'str|ref:Namespace',
+        'parent': 'estr|ref:Namespace',
     },
-    'Namespace': {'name': 'str', 'content': 'list[any]', 'parent': 'str|ref:Namespace'},
+    'Namespace': {'name': 'str', 'content': 'list[any]', 'parent': 'estr|ref:Namespace'},
     # ---------------------------------------------------------------- instantiated nodes
     'InstantiatedClass': {'original': 'ref:Class', 'instantiations': 'list[ref:Typename]'},
     'InstantiatedMethod': {'original': 'ref:Method', 'instantiations': 'list[ref:Typename]'},
@@ -88,7 +88,7 @@ SCHEMA = {
         'module_name': 'str', 'top_module_namespace': 'any', 'ignore_classes': 'any', 'verbose': 'bool',
         'use_boost_serialization': 'bool',
         'wrapper_id': 'int', 'wrapper_map': 'dict[int,%s]' % MAP_ENTRY,
-        'includes': 'list[ref:Include]', 'classes': 'list[ref:InstantiatedClass]', 'classes_elems': 'any',
+        'includes': 'list[ref:Include]', 'classes': 'list[ref:InstantiatedClass]', 'classes_elems': 'dict[ref:InstantiatedClass,int]',
         'global_function_id': 'int', 'content': 'list[any]', 'wrapper_file_headers': 'str',
     },
     'PybindWrapper': {
@@ -121,3 +121,11 @@ def tree_schema():
 
 
 TREE_SCHEMA = tree_schema()
+
+# class invariants of tree objects handed to the generators (assumed; see tree_schema)
+_PLAIN = 'forall(0, len(self.instantiations), lambda j: wf_tn_plain(self.instantiations[j]))'
+TREE_INVARIANTS = {
+    'InstantiatedGlobalFunction': [_PLAIN], 'InstantiatedClass': [_PLAIN], 'InstantiatedMethod': [_PLAIN],
+    'InstantiatedStaticMethod': [_PLAIN], 'InstantiatedConstructor': [_PLAIN], 'InstantiatedDeclaration': [_PLAIN],
+    'Type': ['wf_ty(self)'], 'TemplatedType': ['wf_ty(self)'],
+}
